@@ -128,10 +128,22 @@ func (c02) Generate(r *engine.Rand, index int, tier string) *engine.Scenario {
 		}
 		sortEvents(sc.Events)
 	}
+	if index%8 == 7 {
+		// the program runs across the boundary between two passes of the frame loop
+		sc.Class = "program-frame-boundary"
+		pr := 17556 - r.Intn(int(sc.Cycles/3)+1)
+		sc.SetP("preroll", int64(pr))
+		for i := range sc.Events {
+			sc.Events[i].At += uint64(pr)
+		}
+		sc.Cycles += uint64(pr)
+	}
 	return sc
 }
 
-var c02Focus = map[string]bool{"cycles": true, "stuck": true}
+// "halted": an instruction other than HALT that leaves the CPU idling stops the instruction stream: the
+// time of everything after it is no longer spent on instructions
+var c02Focus = map[string]bool{"cycles": true, "stuck": true, "halted": true}
 
 func (c02) Execute(sc *engine.Scenario) *engine.Result {
 	focus := c02Focus
